@@ -563,7 +563,7 @@ func c12Build(opn string, seed, msg []byte) (*c12Case, error) {
 		}
 	case "legacy.sign", "legacy.encrypt":
 		// the sm2 package also runs its algorithms over other curves (sm2_legacy.go, randFieldElement);
-		// here NIST P-256, with Go's crypto/elliptic as the arithmetic oracle
+		// here NIST P-224, P-256, P-384 or P-521 (chosen by the program), with crypto/elliptic as the arithmetic oracle
 		cv := []elliptic.Curve{elliptic.P256(), elliptic.P256(), elliptic.P224(), elliptic.P384(), elliptic.P521()}[int(seed[1])%5]
 		ln := cv.Params().N
 		cbl, cshift := 0, uint(0)
